@@ -177,6 +177,50 @@ func (st *State) assume(c *Term) {
 	st.pc = append(st.pc, c)
 }
 
+// implied: +1 when c is syntactically in the path condition, -1 when its negation is.
+func (st *State) implied(c *Term) int {
+	nc := Not(c)
+	for _, p := range st.pc {
+		if p == c {
+			return 1
+		}
+		if p == nc {
+			return -1
+		}
+		if p.Op == OpAnd {
+			for _, q := range p.Args {
+				if q == c {
+					return 1
+				}
+				if q == nc {
+					return -1
+				}
+			}
+		}
+	}
+	return 0
+}
+
+// runSide explores one side of a symbolic branch. When the side runs into code
+// the engine cannot model, the side is dropped only if the solver shows that
+// its path condition is infeasible; otherwise the failure propagates.
+func (e *Engine) runSide(s *State, im marker) (outs []*State) {
+	pc := append([]*Term(nil), s.pc...)
+	defer func() {
+		if r := recover(); r != nil {
+			if _, ok := r.(unsupportedErr); ok {
+				res := e.pool.Solve(pc, 20000, []SolverKind{kindZ3})
+				if res.Verdict == Unsat {
+					outs = nil
+					return
+				}
+			}
+			panic(r)
+		}
+	}()
+	return e.runUntil(s, im)
+}
+
 func (st *State) pcFalse() bool {
 	for _, c := range st.pc {
 		if c.IsFalse() {
@@ -341,6 +385,19 @@ func (e *Engine) merge2(c *Term, a, b *State) *State {
 type pdInfo struct {
 	ipdom []*ssa.BasicBlock // nil = exit
 	reach [][]bool
+	loops []map[int]bool // natural loops (sets of block indices)
+}
+
+// continues reports whether taking successor k of the If in block b stays in
+// a loop that the other successor leaves (i.e. the branch is a loop exit test).
+func (p *pdInfo) continues(b *ssa.BasicBlock, k int) bool {
+	s, o := b.Succs[k].Index, b.Succs[1-k].Index
+	for _, l := range p.loops {
+		if l[b.Index] && l[s] && !l[o] {
+			return true
+		}
+	}
+	return false
 }
 
 func (e *Engine) pdom(fn *ssa.Function) *pdInfo {
@@ -448,6 +505,28 @@ func (e *Engine) pdom(fn *ssa.Function) *pdInfo {
 		}
 		p.reach[i] = r
 	}
+	// natural loops from back edges u->h with h dominating u
+	for _, u := range fn.Blocks {
+		for _, h := range u.Succs {
+			if !h.Dominates(u) {
+				continue
+			}
+			body := map[int]bool{h.Index: true}
+			stack := []*ssa.BasicBlock{u}
+			for len(stack) > 0 {
+				x := stack[len(stack)-1]
+				stack = stack[:len(stack)-1]
+				if body[x.Index] {
+					continue
+				}
+				body[x.Index] = true
+				for _, pr := range x.Preds {
+					stack = append(stack, pr)
+				}
+			}
+			p.loops = append(p.loops, body)
+		}
+	}
 	e.pd[fn] = p
 	return p
 }
@@ -549,15 +628,28 @@ func (e *Engine) runUntil(st *State, m marker) []*State {
 			B := fr.block
 			J := pd.ipdom[B.Index]
 			im := marker{fr.id, J}
-			fr.symv[B.Index]++
+			isLoopTest := pd.continues(B, 0) || pd.continues(B, 1)
+			if isLoopTest {
+				fr.symv[B.Index]++
+			}
 			sv := fr.symv[B.Index]
+			if imp := st.implied(cond); imp != 0 {
+				t := B.Succs[0]
+				if imp < 0 {
+					t = B.Succs[1]
+				}
+				if e.enter(st, t, m) {
+					return append(done, st)
+				}
+				continue
+			}
 			var arrived []*State
 			sides := []struct {
 				c *Term
 				t *ssa.BasicBlock
 			}{{cond, B.Succs[0]}, {Not(cond), B.Succs[1]}}
 			for k, sd := range sides {
-				loops := pd.reach[sd.t.Index][B.Index] || sd.t == B
+				loops := isLoopTest && pd.continues(B, k)
 				if loops && sv > e.unwind {
 					// unwinding assertion: this side must be infeasible
 					e.addObl(st, "unwind", fmt.Sprintf("unwind[%s b%d]", shortFn(fr.fn.String()), B.Index), e.site(ins), Not(sd.c))
@@ -581,7 +673,7 @@ func (e *Engine) runUntil(st *State, m marker) []*State {
 					arrived = append(arrived, s)
 					continue
 				}
-				for _, o := range e.runUntil(s, im) {
+				for _, o := range e.runSide(s, im) {
 					if o.status == stAtMarker && o.top().id == fr.id && o.top().block == J {
 						arrived = append(arrived, o)
 					} else {
@@ -1701,7 +1793,7 @@ func (e *Engine) bytesToString(st *State, x *SliceV, site string) *StrV {
 		if al.Base == nil {
 			s = &StrV{Len: BVu(0, 64)}
 		} else {
-			n, ok := maxConst(al.Len)
+			n, ok := e.lenBound(st, al)
 			if !ok {
 				panic(unsupported("string(bytes) with unbounded symbolic length at " + site))
 			}
@@ -1746,6 +1838,9 @@ func maxConst(t *Term) (int, bool) {
 			return b, true
 		}
 	case OpAdd:
+		if c := t.Args[1]; c.Op == OpConst && c.Val.Bit(t.W-1) == 1 {
+			return maxConst(t.Args[0]) // x - k
+		}
 		a, ok1 := maxConst(t.Args[0])
 		b, ok2 := maxConst(t.Args[1])
 		if ok1 && ok2 {
